@@ -162,6 +162,10 @@ func (g *generator) walkObject(schema *openapi3.Schema) (ast.Type, error) {
 }
 
 func (g *generator) walkArray(schema *openapi3.Schema) (ast.Type, error) {
+	if schema.Items == nil {
+		return ast.Type{}, fmt.Errorf("array without items")
+	}
+
 	def, err := g.walkSchemaRef(schema.Items)
 	if err != nil {
 		return ast.Type{}, err
